@@ -10,6 +10,7 @@ import StathamModel.Spec.Draft6
 import StathamModel.Good
 import StathamModel.SerJson
 import StathamModel.Orderer
+import StathamModel.Py.Repr
 open Lean (Json)
 open Statham Statham.Codec
 
@@ -18,6 +19,19 @@ def perrName : PErr → String
   | .missingTitle => "missingTitle"
   | .invalidType => "invalidType"
   | .other => "other"
+
+partial def encLitExpr : JVal → Json
+  | .arr xs => Json.mkObj [("list", Json.arr (xs.map encLitExpr).toArray)]
+  | .obj kvs => Json.mkObj [("dict", Json.arr (kvs.map fun kv => Json.arr #[Json.str kv.1, encLitExpr kv.2]).toArray)]
+  | v => Json.mkObj [("lit", encVal v)]
+
+partial def encExpr : PyExpr → Json
+  | .lit v => encLitExpr v
+  | .name n => Json.mkObj [("name", Json.str n)]
+  | .call f args kwargs => Json.mkObj [("call", Json.str f), ("args", Json.arr (args.map encExpr).toArray),
+      ("kwargs", Json.arr (kwargs.map fun kv => Json.arr #[Json.str kv.1, encExpr kv.2]).toArray)]
+  | .list xs => Json.mkObj [("list", Json.arr (xs.map encExpr).toArray)]
+  | .dict kvs => Json.mkObj [("dict", Json.arr (kvs.map fun kv => Json.arr #[Json.str kv.1, encExpr kv.2]).toArray)]
 
 def getTables (req : Json) : R Tables :=
   match getField req "tables" with
@@ -89,6 +103,13 @@ def handle (req : Json) : R Json := do
     match ordererGraph g with
     | .ok l => pure (Json.mkObj [("r", "ok"), ("order", Json.arr (l.map Json.str).toArray)])
     | .error _ => pure (Json.mkObj [("r", "unresolvable")])
+  | "repr" => do
+    let el ← decElem (← req.getObjVal? "elem")
+    pure (Json.mkObj [("expr", encExpr (reprExpr el))])
+  | "repr_property" => do
+    let key ← decKey (← req.getObjVal? "key")
+    let el ← decElem (← req.getObjVal? "elem")
+    pure (Json.mkObj [("expr", encExpr (propExpr key (reprExpr el)))])
   | "attr_names" => do
     let tables ← getTables req
     let names ← (← (← req.getObjVal? "names").getArr?).toList.mapM (·.getStr?)
